@@ -46,6 +46,8 @@ def one(D, sin, sout, opt, use_bias, shape=None):
             fk = (s[0] + t[0], (s[1] + t[1]) % 2)
             if fk not in fb:
                 continue
+            if t not in layer.weights.get(s, {}):
+                return f"the layer has no weights for the reachable pair {s}->{t} (filter type {fk} is in the bank)", call
             Wst = np.array(layer.weights[s][t], dtype=np.float64)
             F = np.einsum("ocf,f...->oc...", Wst, np.array(fb[fk], dtype=np.float64))
             full = conv_np(X[s][None], F, D, flags, opt["stride"], pd, ld, rd)
